@@ -132,3 +132,86 @@ def rand_braille(rng, maxlen=24, dots_io=False):
     if dots_io:
         return [0x8000 | c for c in cells]
     return [0x2800 | c for c in cells]
+
+
+# ---------------------------------------------------------------------------------------------
+# table-aware inputs: the strings of the table's own rules (from DUMP of the compiled table), so
+# that contractions, joinwords, repeated-word rules, number rules ... actually fire
+class Vocab:
+    def __init__(self):
+        self.by_op = {}       # opcode number -> list of (chars, dots)
+        self.chars = []       # defined characters
+        self.cells = []       # defined cells
+
+    def sample_word(self, rng, maxlen=12):
+        if not self.by_op:
+            return [], []
+        ops = sorted(self.by_op)
+        tr = [o for o in ops if o >= 79]          # translation opcodes (contractions, word-position rules, ...)
+        op = rng.choice(tr) if (tr and rng.random() < 0.7) else rng.choice(ops)
+        c, d = rng.choice(self.by_op[op])
+        return c[:maxlen], d[:maxlen]
+
+    def text(self, rng, maxlen=24):
+        """a few rule strings joined by blanks / nothing / punctuation / a digit run"""
+        u = []
+        for _ in range(rng.randint(1, 4)):
+            w, _d = self.sample_word(rng)
+            if u:
+                k = rng.random()
+                if k < 0.6:
+                    u.append(0x20)
+                elif k < 0.7:
+                    u += [rng.choice(b".,;-'\"(")]
+                elif k < 0.8:
+                    u += [rng.choice(b"0123456789") for _ in range(rng.randint(1, 3))]
+            if rng.random() < 0.1 and w:
+                w = [ord(chr(c).upper()) if c < 0x250 and len(chr(c).upper()) == 1 else c for c in w]
+            u += w
+            if len(u) >= maxlen:
+                break
+        return u[:maxlen]
+
+    def braille(self, rng, maxlen=24):
+        """cells of a few rules joined by blank cells (dotsIO form)"""
+        u = []
+        for _ in range(rng.randint(1, 4)):
+            _w, d = self.sample_word(rng)
+            if u and rng.random() < 0.7:
+                u.append(0x8000)
+            u += [x for x in d if x & 0x8000]
+            if len(u) >= maxlen:
+                break
+        return u[:maxlen]
+
+
+_vocab = {}
+
+
+def table_vocab(exe, tables, timeout=600):
+    """{table: Vocab} from DUMP of the real compiled table (translation rules with >= 1 characters)"""
+    todo = [t for t in tables if t not in _vocab]
+    cases = [common.Case("vocab-%d" % i, [], ["DUMP %s" % tpath(t)], {"table": t}) for i, t in enumerate(todo)]
+    if cases:
+        common.run_cases(exe, cases, batch=4, timeout=timeout)
+    for c in cases:
+        v = Vocab()
+        _vocab[c.meta["table"]] = v
+        if not c.out or c.out[0].startswith("T null"):
+            continue
+        for rec in c.out[0].split(" | "):
+            f = rec.split(" ")
+            if f[0] == "R" and len(f) >= 5:
+                op = int(f[2])
+                if op in (74, 75, 76, 77, 78, 58, 59, 60, 69):     # multipass / swap / grouping: operands are not plain strings
+                    continue
+                ch = common.unwide(f[3]); dt = common.unwide(f[4])
+                if ch and len(ch) <= 16:
+                    lst = v.by_op.setdefault(op, [])
+                    if len(lst) < 400:
+                        lst.append((ch, dt))
+            elif f[0] == "C":
+                v.chars.append(int(f[1], 16))
+            elif f[0] == "D":
+                v.cells.append(int(f[1], 16))
+    return {t: _vocab[t] for t in tables}
